@@ -321,6 +321,11 @@ func (conR *ConsensusManager) Receive(chID byte, src p2p.Peer, msgBytes []byte) 
 			conR.Logger.Error(fmt.Sprintf("Unknown message type %v", reflect.TypeOf(msg)))
 		}
 	case DataChannel:
+		if conR.WaitSync() {
+			// nothing reads the consensus queue before the switch to consensus
+			conR.Logger.Debug("Ignoring message received during sync", "msg", msg)
+			return
+		}
 		switch msg := msg.(type) {
 		case *ProposalMessage:
 			ps.SetHasProposal(msg.Proposal)
@@ -335,6 +340,10 @@ func (conR *ConsensusManager) Receive(chID byte, src p2p.Peer, msgBytes []byte) 
 			conR.Logger.Error(fmt.Sprintf("Unknown message type %v", reflect.TypeOf(msg)))
 		}
 	case VoteChannel:
+		if conR.WaitSync() {
+			conR.Logger.Debug("Ignoring message received during sync", "msg", msg)
+			return
+		}
 		switch msg := msg.(type) {
 		case *VoteMessage:
 			cs := conR.conS
